@@ -302,6 +302,21 @@ KF1_PROGS = [
 ]
 
 
+# the controller's own declared data is part of the batch's access: outer systems touching exactly that data,
+# registered without any dependency on the batch (101 / 102 = the resources the controller kinds 1..3 declare)
+CTL_PROGS = [
+    {"prog": {"ops": [batch([add(w=[1], name="in")], ctl=2, name="b"), add(r=[101], name="reader")]},
+     "modes": ["disp", "par", "seq"], "gated": True},
+    {"prog": {"ops": [add(w=[102], name="writer"), batch([add(r=[1], name="in")], ctl=3, n=2, name="b"), add(w=[101], name="w2")]},
+     "modes": ["disp", "par"], "gated": True},
+    {"prog": {"ops": [batch([batch([add(w=[1], name="deep")], ctl=2, name="inner")], ctl=0, name="outer"), add(r=[101], name="reader"),
+                      add(w=[1], name="w1")]},
+     "modes": ["disp", "par"], "gated": True},
+    {"prog": {"ops": [add(r=[101], name="r0"), batch([add(w=[2], name="in")], ctl=2, n=2, multi=True, name="m"), add(r=[101], name="r1")]},
+     "modes": ["disp", "seq", "par"], "gated": True},
+]
+
+
 def planner_family(ctx, prop, mc_extra_props=(), qdeps=2):
     invs_m = PLANNER_INVS[prop]
     invs_t = TRACE_INVS[prop]
@@ -395,6 +410,7 @@ def check_C05(ctx):
     # running-time hints 1 and 3: the group-append path of the planner is part of the plans that are run
     # (only parallel mode is forced: the model lets dispatch_seq take the groups in any order, the code takes storage order)
     exec_s2i(ctx, "C05", res="{1}" if ctx.quick() else "{1,2}", times="{1,3}", modes='{"par"}', maxforce=2000 if ctx.quick() else 30000)
+    exec_scenarios(ctx, TRACE_INVS["C05"], CTL_PROGS, "outer systems touching the data a batch controller declares")
     # asynchronous dispatch is a parallel dispatch too: nothing lost, nothing overtaken, values as computed by the spec
     async_stage(ctx, ["InvC05", "InvC15"], 80 if ctx.quick() else 600, extra=["--ppanic", 0.2])
 
@@ -406,6 +422,7 @@ def check_C07(ctx):
              extra=["--pbatch", 0.12, "--depth", 2], seed_off=5)
     # the scenario of known finding KF1 (reported as KNOWN-FINDING while listed)
     exec_scenarios(ctx, TRACE_INVS["C07"], KF1_PROGS, "thread-local system inside a batch")
+    exec_scenarios(ctx, TRACE_INVS["C07"], CTL_PROGS, "outer systems touching the data a batch controller declares")
 
 
 def pool_stage(ctx):
